@@ -208,6 +208,26 @@ fn refusals() -> Result<(), String> {
             }
         }
     }
+    // two write windows taken before either commits: the second (now stale) window must not be able to commit beyond
+    // what is free at the time of ITS commit
+    for first in 1..=CAP {
+        for second in (CAP - first + 1)..=CAP {
+            let r = std::panic::catch_unwind(|| {
+                let b: Arc<Buffer<E>> = Arc::new(Buffer::new(4096).unwrap());
+                let w1 = b.clone().write_buf().unwrap();
+                let w2 = b.clone().write_buf().unwrap();
+                w1.produce(first, &[]);
+                w2.produce(second, &[]);
+                let (r, _) = b.clone().read_buf().unwrap();
+                r.len()
+            });
+            if let Ok(readable) = r {
+                return Err(format!(
+                    "BXFAIL {{\"target\":\"ring\",\"property\":\"C01\",\"label\":\"C01.produce.refuses-more-than-writable\",\"what\":\"two windows taken from an empty stream of {} samples; committing {} through the first and then {} through the second (stale) one was accepted; {} samples readable\",\"ops\":[]}}",
+                    CAP, first, second, readable));
+            }
+        }
+    }
     // an element size that does not divide the size, and a zero-sized element, are refused
     if Buffer::<[u8; 12]>::new(4096).is_ok() {
         return Err("BXFAIL {\"target\":\"ring\",\"property\":\"C01\",\"label\":\"C01.new.element-size-divides\",\"what\":\"12-byte element accepted for a 4096-byte buffer\",\"ops\":[]}".into());
